@@ -121,4 +121,17 @@ META = {
         "layer completes a write or raises; the property says nothing about files a crash left incomplete).",
         ["table_over_1000_entries", "keyword_in_name", "tiny_probability", "card1_variable", "three_or_more_parents"],
     ),
+    "C06": _m(
+        "one evaluation = one simulated run: a Bayesian-network world of <=5 variables (cardinality 1..4, string or integer state names, 0..3 parents in "
+        "permuted declared order), 1..60 rows drawn from it by the simulator's own PRNG (so unseen parent configurations and declared-but-unobserved states "
+        "occur), then 1..3 learning operations: MLE or Bayesian (K2 / BDeu with random ess / Dirichlet with scalar or per-state pseudo-counts) through the "
+        "estimator or model.fit, weighted rows, state names declared or inferred; fit_update after a first fit; EM with 0..2 latent variables, seeds, "
+        "init_cpds, max_iter = 1..K re-run from scratch, batch_size in {1,2,3,7,1000}; every call under the SimParallel stub (n_jobs in {1,2,-1}).  Oracle: "
+        "pure-Python counts and closed forms aligned by state name; fitted network validates; same tables after permuting rows / columns / edge insertion; "
+        "EM: brute-force observed-data log-likelihood non-decreasing in k (iterates with entries < 1e-8 excluded: the implementation floors likelihood terms at "
+        "1e-10), same parameters under another batch size / worker schedule, equal to MLE without latents.  Non-trivial = at least one checked operation.",
+        "faults: worker_batching / worker_reorder / worker_isolation (SimParallel), batch_knob (EM batch smaller than the number of distinct rows), relabel, "
+        "insertion_permute",
+        ["unseen_parent_configuration", "declared_state_unobserved", "em_iterations", "fit_update_multi_parent"],
+    ),
 }
